@@ -107,6 +107,9 @@ pub struct IterCase {
     pub col: u64,
     pub script: Vec<Step>,
     pub end: Option<Terminal>,
+    /// 0 = ordinary case; k > 0: the script runs on the k-th giant grid of `()` (crate::giant)
+    #[serde(default)]
+    pub giant: u8,
 }
 
 /// expected item: (address, length in elements, row index within the receiver)
@@ -739,13 +742,21 @@ pub fn execute(case: &IterCase, ctx: &mut Ctx) -> Verdict {
 // zero-sized element types: only Some/None, item lengths and the length reports are observable,
 // and they must be exactly those of the ideal sequence (pointer-based iteration breaks here first)
 
-fn zst_drive<Y, I>(mut it: I, case: &IterCase, total: usize, item_len: Option<usize>, len_of: &dyn Fn(&Y) -> usize, kind: IterKind) -> Verdict
+fn zst_drive<Y, I>(it: I, case: &IterCase, total: usize, item_len: Option<usize>, len_of: &dyn Fn(&Y) -> usize, kind: IterKind) -> Verdict
+where
+    I: Iterator<Item = Y> + DoubleEndedIterator + ExactSizeIterator,
+{
+    zst_drive_ext(it, case, total, item_len, len_of, kind, None, None)
+}
+
+/// `stride`: Some(s) on a giant grid -- wrap-provoking jumps are computed from it and per-item
+/// terminals only run when few items remain.  `index`: `col[i]` / `col_mut[i] = v`.
+#[allow(clippy::too_many_arguments)]
+fn zst_drive_ext<Y, I>(mut it: I, case: &IterCase, total: usize, item_len: Option<usize>, len_of: &dyn Fn(&Y) -> usize, kind: IterKind, stride: Option<usize>, index: Option<&dyn Fn(&mut I, usize, bool) -> Result<(), String>>) -> Verdict
 where
     I: Iterator<Item = Y> + DoubleEndedIterator + ExactSizeIterator,
 {
     let mut left = total;
-    let stride = 1usize; // jumps are resolved against the remaining length only
-    let _ = stride;
     let check = |g: &Option<Y>, want: bool, what: &str| -> Verdict {
         ensure!(g.is_some() == want, format!("{:?}/zst/{}", kind, what), "{:?} over a zero-sized element type, {}: returned {} but the ideal sequence gives {}", kind, what, if g.is_some() { "Some" } else { "None" }, if want { "Some" } else { "None" });
         if let (Some(y), Some(l)) = (g.as_ref(), item_len) {
@@ -758,13 +769,19 @@ where
         let resolve = |n: N| -> usize {
             match n {
                 N::Zero => 0,
-                N::Frac(f) => if left == 0 { 0 } else { (f as usize * left) >> 16 },
+                N::Frac(f) => if left == 0 { 0 } else { ((f as u128 * left as u128) >> 16) as usize },
                 N::Lm1 => left.saturating_sub(1),
                 N::L => left,
-                N::Lp1 => left + 1,
+                N::Lp1 => left.saturating_add(1),
                 N::Max => usize::MAX,
                 N::HalfMaxP1 => usize::MAX / 2 + 1,
-                N::Wrap(j, d) => (u64::MAX / (j.max(1) as u64 + 1)) as usize + d as usize,
+                N::Wrap(j, d) => match stride {
+                    None => (u64::MAX / (j.max(1) as u64 + 1)) as usize + d as usize,
+                    Some(s) => {
+                        let q = ((1u128 << 64) + s as u128 - 1) / s.max(1) as u128;
+                        ((q * j.max(1) as u128 + d as u128) & u64::MAX as u128) as usize
+                    }
+                },
                 N::Rem(d) => d as usize,
                 N::RemRows(m, k) => m as usize * 3 + k as usize,
                 N::Lit(k) => k as usize,
@@ -788,10 +805,40 @@ where
                 left = if nn < left { left - nn - 1 } else { 0 };
             }
             Step::Len | Step::SizeHint => {
-                ensure!(it.len() == left && it.size_hint() == (left, Some(left)), format!("{:?}/zst/len", kind), "{:?} over a zero-sized element type, {}: len() {} / size_hint() {:?} but {} items remain", kind, what, it.len(), it.size_hint(), left);
+                let (l, h) = (catch(|| it.len()), catch(|| it.size_hint()));
+                ensure!(l == Ok(left) && h == Ok((left, Some(left))), format!("{:?}/zst/len", kind), "{:?} over a zero-sized element type, {}: len() {:?} / size_hint() {:?} but {} items remain", kind, what, l, h, left);
+            }
+            Step::Index(n) | Step::IndexWrite(n) => {
+                if let Some(ix) = index {
+                    let i = resolve(n);
+                    let res = ix(&mut it, i, matches!(step, Step::IndexWrite(_)));
+                    ensure!(res.is_ok() == (i < left), format!("{:?}/zst/index", kind), "{:?} over a zero-sized element type, {}: col[{}] with {} items remaining {} but should {}{}", kind, what, i, left, if res.is_ok() { "returned" } else { "panicked" }, if i < left { "return" } else { "panic" }, res.as_ref().err().map(|m| format!(" [{}]", m)).unwrap_or_default());
+                }
             }
             _ => {}
         }
+    }
+    if stride.is_some() && left > 4096 {
+        // only the O(1) terminals
+        let cells = !kind.is_col() && !kind.is_rows();
+        match case.end {
+            Some(Terminal::Last) | Some(Terminal::RFold) | Some(Terminal::CollectRev) => {
+                let g = catch(|| it.last());
+                match g {
+                    Ok(g) => check(&g, left > 0, "last()")?,
+                    Err(m) => fail!(format!("{:?}/zst/last-panicked", kind), "{:?} over a zero-sized element type: last() with {} items remaining panicked: {}", kind, left, m),
+                }
+            }
+            _ if cells => {
+                let l = catch(|| it.len());
+                ensure!(l == Ok(left), format!("{:?}/zst/len", kind), "{:?} over a zero-sized element type: final len() {:?} but {} items remain", kind, l, left);
+            }
+            _ => {
+                let n = catch(|| it.count());
+                ensure!(n == Ok(left), format!("{:?}/zst/count", kind), "{:?} over a zero-sized element type: count() {:?} but {} items remain", kind, n, left);
+            }
+        }
+        return Ok(());
     }
     match case.end {
         Some(Terminal::Count) | None => {
@@ -859,6 +906,114 @@ pub fn zst_companion(case: &IterCase) -> Verdict {
             zst_on(&mut v2, case)
         }
     }
+}
+
+/// The script on the k-th giant grid of `()`: only Some/None, row lengths and the length
+/// reports are observable; with cell counts next to usize::MAX every unchecked product or sum in
+/// the iterator arithmetic shows.
+fn giant_on<X: TooDeeOpsMut<()>>(x: &mut X, case: &IterCase, stride: usize) -> Verdict {
+    let (c, r) = (x.num_cols(), x.num_rows());
+    let col = case.col as usize;
+    let k = case.kind;
+    let st = Some(stride);
+    match k {
+        IterKind::Rows => zst_drive_ext(x.rows(), case, r, Some(c), &|y: &&[()]| y.len(), k, st, None),
+        IterKind::RowsMut => zst_drive_ext(x.rows_mut(), case, r, Some(c), &|y: &&mut [()]| y.len(), k, st, None),
+        IterKind::Col | IterKind::ColMut => {
+            let made = catch(|| if k == IterKind::Col { x.col(col).len() } else { x.col_mut(col).len() });
+            ensure!(made.is_ok() == (col < c), format!("{:?}/zst/col-creation", k), "{:?}: col({}) on a {}x{} grid of a zero-sized type {} but should {}: {:?}", k, col, c, r, if made.is_ok() { "returned" } else { "panicked" }, if col < c { "return" } else { "panic" }, made);
+            if col >= c {
+                return Ok(());
+            }
+            if k == IterKind::Col {
+                zst_drive_ext(x.col(col), case, r, None, &|_y: &&()| 1, k, st, Some(&|it: &mut Col<'_, ()>, i: usize, _w: bool| catch(|| { let _ = &it[i]; })))
+            } else {
+                zst_drive_ext(x.col_mut(col), case, r, None, &|_y: &&mut ()| 1, k, st, Some(&|it: &mut ColMut<'_, ()>, i: usize, w: bool| catch(|| if w { it[i] = (); } else { let _ = &it[i]; })))
+            }
+        }
+        IterKind::Cells => zst_drive_ext(x.cells(), case, c * r, None, &|_y: &&()| 1, k, st, None),
+        IterKind::CellsMut => zst_drive_ext(x.cells_mut(), case, c * r, None, &|_y: &&mut ()| 1, k, st, None),
+        IterKind::IntoIterRef | IterKind::IntoIterMut => zst_drive_ext(x.cells(), case, c * r, None, &|_y: &&()| 1, k, st, None),
+    }
+}
+
+fn giant_shared<'a>(v: &TooDeeView<'a, ()>, case: &IterCase, stride: usize) -> Verdict {
+    let (c, r) = v.size();
+    let col = case.col as usize;
+    let k = case.kind;
+    let st = Some(stride);
+    match k {
+        IterKind::Rows | IterKind::RowsMut => zst_drive_ext(v.rows(), case, r, Some(c), &|y: &&[()]| y.len(), k, st, None),
+        IterKind::Col | IterKind::ColMut => {
+            let made = catch(|| v.col(col).len());
+            ensure!(made.is_ok() == (col < c), format!("{:?}/zst/col-creation", k), "{:?}: col({}) on a {}x{} view of a zero-sized type {} but should {}: {:?}", k, col, c, r, if made.is_ok() { "returned" } else { "panicked" }, if col < c { "return" } else { "panic" }, made);
+            if col >= c {
+                return Ok(());
+            }
+            zst_drive_ext(v.col(col), case, r, None, &|_y: &&()| 1, k, st, Some(&|it: &mut Col<'_, ()>, i: usize, _w: bool| catch(|| { let _ = &it[i]; })))
+        }
+        IterKind::IntoIterRef | IterKind::IntoIterMut => zst_drive_ext(v.into_iter(), case, c * r, None, &|_y: &&()| 1, k, st, None),
+        _ => zst_drive_ext(v.cells(), case, c * r, None, &|_y: &&()| 1, k, st, None),
+    }
+}
+
+pub fn giant_companion(case: &IterCase, ctx: &mut Ctx) -> Verdict {
+    use super::access::giant_window;
+    let (gc, gr) = crate::giant::shape(case.giant);
+    let mut z = crate::giant::owned(gc, gr);
+    let tag;
+    match case.recv {
+        IRecv::M(rv) => match rv.kind {
+            RecvKind::Owned => {
+                tag = "giant/owned";
+                giant_on(&mut z, case, gc)?
+            }
+            RecvKind::Thin => {
+                tag = "giant/third-party";
+                giant_on(&mut Thin::new(&mut z), case, gc)?
+            }
+            RecvKind::SliceMut => {
+                tag = "giant/view_mut over slice";
+                giant_on(&mut TooDeeViewMut::new(gc, gr, z.data_mut()), case, gc)?
+            }
+            RecvKind::ViewMut | RecvKind::ThinView => {
+                tag = "giant/view_mut";
+                let (s, e) = giant_window(gc, gr, rv.m);
+                giant_on(&mut z.view_mut(s, e), case, gc)?
+            }
+            RecvKind::Nested => {
+                tag = "giant/nested view_mut";
+                let (s, e) = giant_window(gc, gr, rv.m);
+                let mut v1 = z.view_mut(s, e);
+                let (c1, r1) = v1.size();
+                let (s2, e2) = giant_window(c1, r1, rv.m2);
+                giant_on(&mut v1.view_mut(s2, e2), case, gc)?
+            }
+        },
+        IRecv::View(m) => {
+            tag = "giant/view";
+            let (s, e) = giant_window(gc, gr, m);
+            giant_shared(&z.view(s, e), case, gc)?
+        }
+        IRecv::NestedView(m, m2) | IRecv::ViewOfViewMut(m, m2) => {
+            tag = "giant/nested view";
+            let (s, e) = giant_window(gc, gr, m);
+            let v1 = z.view(s, e);
+            let (c1, r1) = v1.size();
+            let (s2, e2) = giant_window(c1, r1, m2);
+            giant_shared(&v1.view(s2, e2), case, gc)?
+        }
+        IRecv::Slice(slack) => {
+            tag = "giant/view over slice";
+            let n = (gc * gr).saturating_add(slack as usize);
+            giant_shared(&TooDeeView::new(gc, gr, &crate::giant::UNITS[..n]), case, gc)?
+        }
+    }
+    ctx.nt();
+    ctx.class("giant-unit-grid");
+    ctx.class(tag);
+    ctx.class(&format!("{:?}", case.kind));
+    Ok(())
 }
 
 // ---------------------------------------------------------------------------------------------
@@ -965,7 +1120,7 @@ fn case_strategy(kinds: &'static [IterKind]) -> BoxedStrategy<IterCase> {
         // well beyond the exhaustive bounds (size-dependent fast paths)
         1 => (0u8..=90, 0u8..=90),
     ];
-    (proptest::sample::select(kinds), shape)
+    let small = (proptest::sample::select(kinds), shape)
         .prop_flat_map(|(kind, (cols, rows))| {
             let w = cols as usize;
             // structured script: a prefix of next / next_back steps (so that partially consumed
@@ -1000,9 +1155,30 @@ fn case_strategy(kinds: &'static [IterKind]) -> BoxedStrategy<IterCase> {
                 }
             }
             let col = if bad_col { cols as u64 + (cfrac as u64 % 3) * (u64::MAX / 3) } else { (cfrac as u64 * cols as u64) >> 16 };
-            IterCase { cols, rows, recv, kind, col, script, end }
+            IterCase { cols, rows, recv, kind, col, script, end, giant: 0 }
+        });
+    let small = small.boxed();
+    // giant grids of `()`
+    let gn = || prop_oneof![
+        2 => Just(N::Zero), 2 => (0u8..4).prop_map(N::Lit), 2 => any::<u16>().prop_map(N::Frac), 2 => Just(N::Lm1), 2 => Just(N::L), 2 => Just(N::Lp1),
+        1 => Just(N::Max), 1 => Just(N::HalfMaxP1), 3 => (1u8..4, 0u8..3).prop_map(|(j, d)| N::Wrap(j, d)),
+    ];
+    let giant = (proptest::sample::select(kinds), 1u8..=crate::giant::SHAPES.len() as u8)
+        .prop_flat_map(move |(kind, g)| {
+            let mut v: Vec<(u32, BoxedStrategy<Step>)> = vec![
+                (2, Just(Step::Next).boxed()), (2, Just(Step::NextBack).boxed()), (5, gn().prop_map(Step::Nth).boxed()), (5, gn().prop_map(Step::NthBack).boxed()), (2, Just(Step::Len).boxed()),
+            ];
+            if kind.is_col() {
+                v.push((3, gn().prop_map(Step::Index).boxed()));
+                v.push((1, gn().prop_map(Step::IndexWrite).boxed()));
+            }
+            (Just(kind), Just(g), irecv(kind.is_mut()), prop::collection::vec(proptest::strategy::Union::new_weighted(v), 0..6), terminal(), any::<u8>())
         })
-        .boxed()
+        .prop_map(|(kind, g, recv, script, end, ci)| {
+            let (wc, _wr, stride) = super::access::giant_dims(g, &recv);
+            IterCase { cols: 0, rows: 0, recv, kind, col: crate::giant::coord(wc, stride, ci), script, end, giant: g }
+        });
+    prop_oneof![24 => small, 1 => giant].boxed()
 }
 
 pub fn sanitize(k: &mut IterCase, kinds: &[IterKind]) -> bool {
@@ -1029,10 +1205,41 @@ pub fn sanitize(k: &mut IterCase, kinds: &[IterKind]) -> bool {
         k.recv = IRecv::M(Recv::view([1, 1, 1, 1]));
     }
     k.script.truncate(16);
+    k.giant = if k.giant < 224 { 0 } else { k.giant - 223 };
     true
 }
 
+fn enum_giant(kinds: &[IterKind], emit: &mut dyn FnMut(IterCase)) {
+    let ns = [N::Zero, N::Lit(1), N::Lm1, N::L, N::Lp1, N::Max, N::Wrap(1, 0), N::Wrap(1, 1)];
+    let mut alphabet: Vec<Step> = vec![Step::Next, Step::NextBack, Step::Len];
+    alphabet.extend(ns.iter().map(|&n| Step::Nth(n)));
+    alphabet.extend(ns.iter().map(|&n| Step::NthBack(n)));
+    for &kind in kinds {
+        let mut alpha = alphabet.clone();
+        if kind.is_col() {
+            alpha.extend([N::Zero, N::Lm1, N::L, N::Lp1, N::Max, N::Wrap(1, 0)].iter().map(|&n| Step::Index(n)));
+        }
+        let recvs: Vec<IRecv> = if kind.is_mut() { vec![IRecv::M(Recv::owned()), IRecv::M(Recv::view([1, 1, 1, 1]))] } else { vec![IRecv::M(Recv::owned()), IRecv::View([1, 1, 1, 1]), IRecv::Slice(1)] };
+        for g in 1..=crate::giant::SHAPES.len() as u8 {
+            for &recv in &recvs {
+                let (wc, _wr, _s) = super::access::giant_dims(g, &recv);
+                let cols: Vec<u64> = if kind.is_col() { vec![0, wc as u64 - 1, wc as u64, u64::MAX] } else { vec![0] };
+                for col in cols {
+                    emit(IterCase { cols: 0, rows: 0, recv, kind, col, script: vec![], end: Some(Terminal::Last), giant: g });
+                    for &a in &alpha {
+                        emit(IterCase { cols: 0, rows: 0, recv, kind, col, script: vec![a], end: Some(Terminal::Count), giant: g });
+                        for &b in &alpha {
+                            emit(IterCase { cols: 0, rows: 0, recv, kind, col, script: vec![a, b], end: if matches!(b, Step::Next) { Some(Terminal::Last) } else { None }, giant: g });
+                        }
+                    }
+                }
+            }
+        }
+    }
+}
+
 fn enum_cases(kinds: &[IterKind], tier: Tier, emit: &mut dyn FnMut(IterCase)) {
+    enum_giant(kinds, emit);
     let alphabet: Vec<Step> = vec![
         Step::Next, Step::NextBack, Step::Nth(N::Zero), Step::Nth(N::Lit(1)), Step::Nth(N::Lit(2)), Step::Nth(N::Lm1), Step::Nth(N::L), Step::Nth(N::Max), Step::Nth(N::Wrap(1, 0)),
         Step::NthBack(N::Zero), Step::NthBack(N::Lit(1)), Step::NthBack(N::Lit(2)), Step::NthBack(N::Lm1), Step::NthBack(N::L), Step::NthBack(N::Max), Step::NthBack(N::Wrap(1, 0)), Step::Len,
@@ -1048,7 +1255,7 @@ fn enum_cases(kinds: &[IterKind], tier: Tier, emit: &mut dyn FnMut(IterCase)) {
                     if kind.is_col() && cols == 0 {
                         // no column exists: creating the iterator must panic
                         for bad in [0u64, 1, u64::MAX] {
-                            emit(IterCase { cols, rows, recv, kind, col: bad, script: vec![], end: None });
+                            emit(IterCase { cols, rows, recv, kind, col: bad, script: vec![], end: None, giant: 0 });
                         }
                         continue;
                     }
@@ -1056,7 +1263,7 @@ fn enum_cases(kinds: &[IterKind], tier: Tier, emit: &mut dyn FnMut(IterCase)) {
                     let mut idx = vec![0usize; 0];
                     loop {
                         let script: Vec<Step> = idx.iter().map(|&i| alphabet[i]).collect();
-                        emit(IterCase { cols, rows, recv, kind, col: col as u64, script, end: None });
+                        emit(IterCase { cols, rows, recv, kind, col: col as u64, script, end: None, giant: 0 });
                         // next script (odometer over lengths 0..=depth)
                         let mut p = idx.len();
                         loop {
@@ -1086,7 +1293,7 @@ fn enum_cases(kinds: &[IterKind], tier: Tier, emit: &mut dyn FnMut(IterCase)) {
                 }
                 if kind.is_col() {
                     for bad in [cols as u64, cols as u64 + 1, u64::MAX] {
-                        emit(IterCase { cols, rows, recv, kind, col: bad, script: vec![], end: None });
+                        emit(IterCase { cols, rows, recv, kind, col: bad, script: vec![], end: None, giant: 0 });
                     }
                 }
             }
@@ -1116,6 +1323,9 @@ macro_rules! iter_prop {
                 if tier == Tier::Quick { 800_000 } else { 12_000_000 }
             }
             fn execute(k: &IterCase, ctx: &mut Ctx) -> Verdict {
+                if k.giant > 0 {
+                    return giant_companion(k, ctx);
+                }
                 execute(k, ctx)?;
                 // every fourth case also runs on a zero-sized element type
                 if (k.script.len() + k.cols as usize + k.rows as usize) % 4 == 0 {
@@ -1139,20 +1349,20 @@ iter_prop!(
     "C08",
     &[IterKind::Rows, IterKind::RowsMut],
     "rows() / rows_mut() on {owned, view, mutable view, nested views, view over a plain slice, third-party wrapper} (shapes 0..8, parents up to 14 wide so that stride > width, width 1, height 1 and empty all occur) driven by a script of next / next_back / nth(n) / nth_back(n) / len / size_hint / num_cols plus a terminal count / last / fold / rfold / rev-collect / for-loop; n symbolic: 0, k < L, L-1, L, L+1, usize::MAX, usize::MAX/2+1, ceil(2^64/stride)*j+d. Oracle: ideal VecDeque stepped in lock-step, every item compared by address, length and value, len/size_hint after every step; rows_mut items are all kept alive, checked pairwise disjoint, written through and the whole parent compared. Non-trivial = script with state-changing steps from both ends, or an nth/nth_back with n >= 1. Distinct = distinct case.",
-    &["Rows", "RowsMut", "stride>width", "width-1", "height-1", "empty", "nth-overflow-provoking-n", "stride>=8"]
+    &["giant-unit-grid", "Rows", "RowsMut", "stride>width", "width-1", "height-1", "empty", "nth-overflow-provoking-n", "stride>=8"]
 );
 iter_prop!(
     C09,
     "C09",
     &[IterKind::Col, IterKind::ColMut],
     "col(c) / col_mut(c) for every column of {owned, view, mutable view, nested views, slice view, third-party wrapper} incl. single-column parents (stride 1) and parents up to 14 wide, driven by a script of next / next_back / nth / nth_back / len / size_hint / [i] / [i] = v on the remaining sequence plus a terminal; n and i symbolic incl. usize::MAX and ceil(2^64/stride)*j+d (wrap-provoking). Oracle: ideal VecDeque in lock-step (address + value), col[i] beyond the remaining length and col(c) with c out of range must panic; col_mut items kept alive, pairwise disjoint, written through, whole parent compared. Non-trivial = state-changing steps from both ends, or a jump with n >= 1, or an out-of-range column. Distinct = distinct case.",
-    &["Col", "ColMut", "stride>width", "single-column-parent(stride 1)", "index-in-range", "index-out-of-range-panics", "col-out-of-range-panics", "nth-overflow-provoking-n", "stride>=8"]
+    &["giant-unit-grid", "Col", "ColMut", "stride>width", "single-column-parent(stride 1)", "index-in-range", "index-out-of-range-panics", "col-out-of-range-panics", "nth-overflow-provoking-n", "stride>=8"]
 );
 iter_prop!(
     C10,
     "C10",
     &[IterKind::Cells, IterKind::CellsMut, IterKind::IntoIterRef, IterKind::IntoIterMut],
     "cells() / cells_mut() / the IntoIterator forms on references, on {owned, view, mutable view, nested views, slice view, third-party wrapper}: structured scripts = a prefix of 0..w+1 next and 0..w+1 next_back steps (so partially consumed front and back rows are common), a body of small jumps (within the partial row, to its end, row-crossing, exact row multiples), at most one exhausting jump near the end, plus a terminal last / fold / rfold / rev-collect / for-loop. Oracle: ideal row-major VecDeque in lock-step (address + value), len/size_hint/num_cols; cells_mut items kept alive, pairwise disjoint, written through, whole parent compared. Non-trivial = state-changing steps from both ends, or a jump with n >= 1. The evidence classes report, per nth/nth_back call, the 8 combinations of {front row partial, middle rows left, back row partial} and the jump kind. Distinct = distinct case.",
-    &["Cells", "CellsMut", "IntoIterRef", "IntoIterMut", "stride>width", "jump-within-row", "jump-to-row-start", "jump-row-crossing", "jump-beyond-end",
+    &["giant-unit-grid", "Cells", "CellsMut", "IntoIterRef", "IntoIterMut", "stride>width", "jump-within-row", "jump-to-row-start", "jump-row-crossing", "jump-beyond-end",
       "nth-state front-partial=1 middle-rows=1 back-partial=1", "nth-state front-partial=1 middle-rows=0 back-partial=1", "nth-state front-partial=1 middle-rows=1 back-partial=0", "nth-state front-partial=0 middle-rows=1 back-partial=1"]
 );
